@@ -20,15 +20,32 @@ Faithfulness (any environment, no hypothesis):
 
 Ending together (under `GrpcStreamEnv`: context cancellation unblocks a client `Recv`, handler
 return cancels the server stream, `CloseSend` returns; a source that ignores the half-close is
-ALLOWED):
+ALLOWED) — and only while NO PEER IS STALLED (`Unstalled`): a gRPC `Send` blocks while the
+receiving peer does not read (`Act.stall d` / `Act.unstall d`, flag `Dir.stalled`), and a relay
+loop blocked in `Send` looks neither at its channel nor at the latch:
 * `C06_every_schedule_terminates` — every internal action strictly decreases `mu`: whatever the Go
-  scheduler and `select` do, the proxy side runs out of steps (needs no hypothesis on gRPC).
-* `C06_quiescent_ended_is_done` — a reachable state in which either side has ended (`Ending`) and
-  in which no goroutine can move is `Done`: both loops finished, latch set, `CloseSend`
-  attempted, outgoing context cancelled, handler returned, all six goroutines gone.
-* `C06_every_schedule_ends_together` — hence every maximal internal run from any reachable state
-  with an ending finishes `Done`.
+  scheduler and `select` do, the proxy side runs out of steps (needs no hypothesis on gRPC, and
+  none on stalls: a blocked `Send` only removes steps).
+* `C06_quiescent_ended_is_done` — a reachable state in which either side has ended (`Ending`), in
+  which no goroutine can move and in which no peer is stalled is `Done`: both loops finished, latch
+  set, `CloseSend` attempted, outgoing context cancelled, handler returned, all six goroutines gone.
+  The hypothesis is about THAT state only (peers may have been stalled and unstalled before).
+* `C06_quiescent_ended_done_iff_not_blocked` — exactly: such a state (stalled or not) is `Done` iff
+  no relay loop sits in a blocked `Send` (`blockedInSend`); a blocked `Send` is the ONLY way a
+  pass-through stream with an ending fails to end.
+* `C06_every_schedule_ends_together` — hence every maximal run without a `stall` from any
+  reachable state with an ending and no stalled peer finishes `Done`.
 * `C06_ends_together` — in particular the deterministic scheduler `settle` with fuel `mu σ`.
+* `C06_*_no_send_can_block` — the same under the weaker `NoSendCanBlock` (a stalled peer whose stream
+  is already done / broken / cancelled cannot block a `Send`); `C06_cancel_ends_together_even_stalled`:
+  the initiator going away ends every stream together, whoever is stalled.
+* `C06_stuck_behind_blocked_send`, `C06_stuck_behind_blocked_send_i` — the hypothesis is needed: the
+  source ends (EOF) while `forwardReplicationMessages` is blocked in `targetStreamServer.Send` to an
+  initiator that does not read (resp. the initiator half-closes while `forwardAcks` is blocked in
+  `sourceStreamClient.Send`): the listener picks the EOF up and then nothing moves, latch not set,
+  handler not returned.  `C06_unstall_resumes`: as soon as the peer reads again the message goes
+  through and everything ends together.  `C06_cancel_unblocks_blocked_send`: a cancelled context
+  makes the blocked `Send` return an error; the stream ends together with the peer still stalled.
 
 Excluded environments (each hypothesis of `GrpcStreamEnv` is needed; kernel-checked witnesses):
 `C06_stuck_without_handler_return_cancel`, `C06_stuck_without_ctx_cancel`,
@@ -85,25 +102,66 @@ theorem C06_every_schedule_terminates (e : Env) (acts : List Act) (a : Act) (σ'
 
 /-- a reachable state with an ending in which nothing can move is `Done`. -/
 theorem C06_quiescent_ended_is_done (e : Env) (acts : List Act) (henv : GrpcStreamEnv e)
-    (he : Ending (run (State.init e) acts)) (hq : Quiescent (run (State.init e) acts)) :
+    (he : Ending (run (State.init e) acts)) (hq : Quiescent (run (State.init e) acts))
+    (hu : Unstalled (run (State.init e) acts)) :
     Done (run (State.init e) acts) :=
-  quiescent_ending_done (ctl_run e acts) (by rw [run_env]; exact henv) he hq
+  quiescent_ending_done (ctl_run e acts) (by rw [run_env]; exact henv) he hq (unstalled_noSendCanBlock hu)
 
-/-- **(c), all schedules**: from EVERY reachable state in which either side has ended, every
-    maximal run of internal actions (`sched`, any order) finishes `Done`. -/
+/-- exactly: a reachable state with an ending in which nothing can move (peers stalled or not) is
+    `Done` iff no relay loop is blocked in `Send`. -/
+theorem C06_quiescent_ended_done_iff_not_blocked (e : Env) (acts : List Act) (henv : GrpcStreamEnv e)
+    (he : Ending (run (State.init e) acts)) (hq : Quiescent (run (State.init e) acts)) :
+    Done (run (State.init e) acts) ↔ ∀ d, blockedInSend (run (State.init e) acts) d = false :=
+  quiescent_ending_done_iff (ctl_run e acts) (by rw [run_env]; exact henv) he hq
+
+/-- **(c), all schedules**: from EVERY reachable state in which either side has ended and no peer is
+    stalled (whatever happened before: `acts` may stall and unstall), every maximal run (`sched`, any
+    order) in which no peer stalls finishes `Done`. -/
 theorem C06_every_schedule_ends_together (e : Env) (acts sched : List Act) (henv : GrpcStreamEnv e)
     (he : Ending (run (State.init e) acts))
+    (hu : Unstalled (run (State.init e) acts)) (hns : ∀ d, Act.stall d ∉ sched)
     (hq : Quiescent (run (State.init e) (acts ++ sched))) :
     Done (run (State.init e) (acts ++ sched)) := by
-  refine C06_quiescent_ended_is_done e (acts ++ sched) henv ?_ hq
-  rw [run_append]
-  exact ending_run he sched
+  refine C06_quiescent_ended_is_done e (acts ++ sched) henv ?_ hq ?_
+  · rw [run_append]
+    exact ending_run he sched
+  · rw [run_append]
+    exact unstalled_run hu sched hns
 
-/-- **(c), the scheduler**: `settle` with fuel `mu σ` reaches `Done` from every reachable state with an ending. -/
+/-- **(c), the scheduler**: `settle` with fuel `mu σ` reaches `Done` from every reachable state with an
+    ending in which no peer is stalled. -/
 theorem C06_ends_together (e : Env) (acts : List Act) (henv : GrpcStreamEnv e)
-    (he : Ending (run (State.init e) acts)) :
+    (he : Ending (run (State.init e) acts)) (hu : Unstalled (run (State.init e) acts)) :
     Done (settle (mu (run (State.init e) acts)) (run (State.init e) acts)) :=
-  settle_done _ _ (ctl_run e acts) (by rw [run_env]; exact henv) he (Nat.le_refl _)
+  settle_done _ _ (ctl_run e acts) (by rw [run_env]; exact henv) he (unstalled_noSendCanBlock hu) (Nat.le_refl _)
+
+/-- sharper than `Unstalled`: it is enough that no `Send` CAN block (`NoSendCanBlock`: every stalled
+    peer's stream is already done / broken / cancelled, so a `Send` to it returns an error). -/
+theorem C06_every_schedule_ends_together_no_send_can_block (e : Env) (acts sched : List Act) (henv : GrpcStreamEnv e)
+    (he : Ending (run (State.init e) acts))
+    (hu : NoSendCanBlock (run (State.init e) acts)) (hns : ∀ d, Act.stall d ∉ sched)
+    (hq : Quiescent (run (State.init e) (acts ++ sched))) :
+    Done (run (State.init e) (acts ++ sched)) := by
+  refine quiescent_ending_done (ctl_run e _) (by rw [run_env]; exact henv) ?_ hq ?_
+  · rw [run_append]
+    exact ending_run he sched
+  · rw [run_append]
+    exact noSendCanBlock_run hu sched hns
+
+theorem C06_ends_together_no_send_can_block (e : Env) (acts : List Act) (henv : GrpcStreamEnv e)
+    (he : Ending (run (State.init e) acts)) (hu : NoSendCanBlock (run (State.init e) acts)) :
+    Done (settle (mu (run (State.init e) acts)) (run (State.init e) acts)) :=
+  settle_done _ _ (ctl_run e acts) (by rw [run_env]; exact henv) he hu (Nat.le_refl _)
+
+/-- in particular the initiator going away (its stream's context cancelled; the outgoing context
+    derives from it) ends EVERY pass-through stream together, whoever is stalled: both `Send`s fail. -/
+theorem C06_cancel_ends_together_even_stalled (e : Env) (acts : List Act) (henv : GrpcStreamEnv e) :
+    Done (settle (mu (run (State.init e) (acts ++ [.iniCancel]))) (run (State.init e) (acts ++ [.iniCancel]))) := by
+  have hσ : run (State.init e) (acts ++ [.iniCancel]) = { run (State.init e) acts with srvCtx := true } := by
+    rw [run_snoc]; rfl
+  refine C06_ends_together_no_send_can_block e _ henv ?_ ?_
+  · rw [hσ]; simp [Ending, ending]
+  · rw [hσ]; constructor <;> intro _ <;> simp [sendOk]
 
 /-- `settle` is a composition of internal fine steps (so everything above applies to the driver's big steps). -/
 theorem C06_settle_is_run (fuel : Nat) (σ : State) :
@@ -145,6 +203,82 @@ theorem C06_closeSend_guard_leak :
 theorem C06_shutdown_needs_conn_close :
     let σ := settle 100 (run (started { shutdownClosesConn := false }) [.shutdown])
     σ = started { shutdownClosesConn := false } ∧ ¬ Ending σ ∧ σ.h = .waiting ∧ aliveCount σ = 5 := by
+  decide
+
+/-! ## a peer that stops reading: the `Unstalled` hypothesis is needed -/
+
+/-- start-up is the two listeners entering `Recv` -/
+theorem started_eq_run (e : Env) : started e = run (State.init e) [.lCheck .s, .lCheck .i] := by
+  cases e with | mk a b c d f => cases a <;> cases b <;> cases c <;> cases d <;> cases f <;> decide
+
+/-- the source sends message 1, the initiator stops reading, the listener hands the message to
+    `forwardReplicationMessages` (which calls `targetStreamServer.Send` and blocks), the source ends -/
+def sendBlockedS : List Act := [.push .s (.data 1), .stall .s, .lRecv .s, .lHand .s, .push .s .eof]
+
+/-- the initiator sends ack 7, the source stops reading, the listener hands the ack to `forwardAcks`
+    (which calls `sourceStreamClient.Send` and blocks), the initiator half-closes (clean EOF) -/
+def sendBlockedI : List Act := [.push .i (.data 7), .stall .i, .lRecv .i, .lHand .i, .push .i .eof]
+
+/-- where the stream of `sendBlockedS` / `sendBlockedI` comes to rest -/
+def stuckS : State := settle 100 (run (started {}) sendBlockedS)
+def stuckI : State := settle 100 (run (started {}) sendBlockedI)
+
+/-- **the stream does not end although the source has ended**: `forwardReplicationMessages` is blocked
+    in `Send` to an initiator that does not read.  After the source's EOF the only internal action
+    enabled is the source listener's (it enters `Recv`, gets the EOF, and then waits for ever at its
+    `select`: the loop is not receiving and the latch is not set); then nothing at all is enabled.
+    The latch is false, the handler has not returned, five goroutines are alive, the message is not
+    delivered — in a `GrpcStreamEnv` environment. -/
+theorem C06_stuck_behind_blocked_send :
+    let σ := run (started {}) sendBlockedS
+    GrpcStreamEnv σ.env ∧ Ending σ ∧ blockedInSend σ .s = true ∧ step σ (.rProc .s) = none ∧
+    (∀ a ∈ internalActs, (step σ a).isSome = true → a = .lCheck .s) ∧
+    stuckS = run σ [.lCheck .s, .lRecv .s] ∧ stuckS.s.lis = .has .eof ∧ stuckS.s.loop = .holding (.data 1) ∧
+    Ending stuckS ∧ firstEnabled stuckS internalActs = none ∧ stuckS.latch = false ∧ stuckS.h = .waiting ∧
+    stuckS.s.out = [] ∧ aliveCount stuckS = 5 ∧ ¬ Done stuckS := by
+  decide
+
+/-- symmetric: the initiator half-closes while `forwardAcks` is blocked in `sourceStreamClient.Send`
+    to a source that does not read: no `CloseSend`, no latch, nothing ends. -/
+theorem C06_stuck_behind_blocked_send_i :
+    let σ := run (started {}) sendBlockedI
+    GrpcStreamEnv σ.env ∧ Ending σ ∧ blockedInSend σ .i = true ∧ step σ (.rProc .i) = none ∧
+    (∀ a ∈ internalActs, (step σ a).isSome = true → a = .lCheck .i) ∧
+    stuckI = run σ [.lCheck .i, .lRecv .i] ∧ stuckI.i.lis = .has .eof ∧ stuckI.i.loop = .holding (.data 7) ∧
+    Ending stuckI ∧ firstEnabled stuckI internalActs = none ∧ stuckI.latch = false ∧ stuckI.cs = .idle ∧
+    stuckI.h = .waiting ∧ stuckI.i.out = [] ∧ aliveCount stuckI = 5 ∧ ¬ Done stuckI := by
+  decide
+
+theorem stuckS_reachable :
+    stuckS = run (State.init {}) ([.lCheck .s, .lCheck .i] ++ sendBlockedS ++ [.lCheck .s, .lRecv .s]) := by
+  decide
+
+theorem stuckI_reachable :
+    stuckI = run (State.init {}) ([.lCheck .s, .lCheck .i] ++ sendBlockedI ++ [.lCheck .i, .lRecv .i]) := by
+  decide
+
+/-- **the peer reads again**: from the two stuck states, `unstall` followed by the fair schedule ends
+    together (by the re-stated `C06_ends_together`), and the message that was blocked is delivered. -/
+theorem C06_unstall_resumes :
+    (let σ := run stuckS [.unstall .s]
+     Done (settle (mu σ) σ) ∧ (settle (mu σ) σ).s.out = [1]) ∧
+    (let σ := run stuckI [.unstall .i]
+     Done (settle (mu σ) σ) ∧ (settle (mu σ) σ).i.out = [7]) := by
+  refine ⟨⟨?_, by decide⟩, ⟨?_, by decide⟩⟩
+  · rw [stuckS_reachable, ← run_append]
+    exact C06_ends_together {} _ (by decide) (by decide) (by decide)
+  · rw [stuckI_reachable, ← run_append]
+    exact C06_ends_together {} _ (by decide) (by decide) (by decide)
+
+/-- **a cancelled context unblocks**: in the `.i` stuck state (`forwardAcks` blocked in
+    `sourceStreamClient.Send`), the initiator going away (server stream's context cancelled, the
+    outgoing context derives from it) makes the blocked `Send` return an error: `rProc .i` is
+    enabled again, and the stream ends together although the source is still not reading (the ack
+    is lost with the stream). -/
+theorem C06_cancel_unblocks_blocked_send :
+    let σ := run stuckI [.iniCancel]
+    step stuckI (.rProc .i) = none ∧ (step σ (.rProc .i)).isSome = true ∧ blockedInSend σ .i = false ∧
+    Done (settle (mu σ) σ) ∧ (settle (mu σ) σ).i.stalled = true ∧ (settle (mu σ) σ).i.out = [] := by
   decide
 
 /-! ## non-vacuity -/
